@@ -79,9 +79,9 @@ def nASCII85Decode : Bytes := [65, 83, 67, 73, 73, 56, 53, 68, 101, 99, 111, 100
 /-- The end marker `do_keyword` scans for: `~>` when `/F` — or, without `/F`, `/Filter` (round 6 `fix:`) — is a name, or a non-empty array whose first
     element is a name, of the ASCII85 filter; anything else names no filter (`EI`). -/
 def eosOf (d : Dict) : Except IErr Bytes :=
-  match getAny d [kF, kFilter] with
-  | some (.name f) => .ok (if f = nA85 ∨ f = nASCII85Decode then [126, 62] else [69, 73])
-  | some (.arr (.name f :: _)) => .ok (if f = nA85 ∨ f = nASCII85Decode then [126, 62] else [69, 73])
+  match getAny d keysEosFilter with
+  | some (.name f) => .ok (if a85Names.contains f then [126, 62] else [69, 73])
+  | some (.arr (.name f :: _)) => .ok (if a85Names.contains f then [126, 62] else [69, 73])
   | _ => .ok [69, 73]
 
 def componentsOf (cs : Bytes) : Option Nat := (inlineComponents.find? (fun p => p.1 == cs)).map (·.2)
@@ -97,15 +97,15 @@ def posInt : Option Val → Option Int
 
 /-- `inline_image_size(d)`. -/
 def inlineSize (d : Dict) : Option Nat :=
-  match getAny d [kF, kFilter] with
+  match getAny d sizeKeysFilter with
   | some _ => none
   | none =>
-    let wh := (posInt (getAny d [kW, kWidth]), posInt (getAny d [kH, kHeight]))
+    let wh := (posInt (getAny d sizeKeysWidth), posInt (getAny d sizeKeysHeight))
     let bn : Option Int × Option Int :=
-      if isPyTrue (getAny d [kIM, kImageMask]) then (some 1, some 1)
+      if isPyTrue (getAny d sizeKeysImageMask) then (some 1, some 1)
       else
-        (posInt (getAny d [kBPC, kBitsPerComponent]),
-         match getAny d [kCS, kColorSpace] with
+        (posInt (getAny d sizeKeysBits),
+         match getAny d sizeKeysColorSpace with
          | some (.name s) => (componentsOf s).map (fun n => (n : Int))
          | some (.arr (.name s :: _)) => (componentsOf s).map (fun n => (n : Int))
          | _ => none)
@@ -143,24 +143,25 @@ structure LTFields where
   imagemask : Option Val
   deriving Repr
 
-/-- `do_EI` (accept iff width and height are present) followed by `LTImage.__init__`. -/
+/-- `do_EI` (accept iff width and height are present under `do_EI`'s own key tuples; all key tuples are the regenerated ones, round 6c) followed by `LTImage.__init__`. -/
 def doEI (d : Dict) : Option LTFields :=
-  match getAny d [kW, kWidth], getAny d [kH, kHeight] with
-  | some w, some h =>
+  match getAny d doEIKeysWidth, getAny d doEIKeysHeight, getAny d keysWidth, getAny d keysHeight with
+  | some _, some _, some w, some h =>
     some { srcW := w, srcH := h,
-           bits := (getAny d [kBPC, kBitsPerComponent]).getD (.int 1),
-           colorspace := match getAny d [kCS, kColorSpace] with
+           bits := (getAny d keysBits).getD (.int 1),
+           colorspace := match getAny d keysColorSpace with
              | some (.arr xs) => xs.map some
              | some v => [some v]
              | none => [none],
-           imagemask := getAny d [kIM, kImageMask] }
-  | _, _ => none
+           imagemask := getAny d keysImageMask }
+  | _, _, _, _ => none
 
-def nDeviceGray : Bytes := [68, 101, 118, 105, 99, 101, 71, 114, 97, 121]
-def nDeviceRGB : Bytes := [68, 101, 118, 105, 99, 101, 82, 71, 66]
-def nDeviceCMYK : Bytes := [68, 101, 118, 105, 99, 101, 67, 77, 89, 75]
-def nG : Bytes := [71]
-def nRGB : Bytes := [82, 71, 66]
+/-- The colour space literals `export_image` compares with ARE the regenerated `pdfcolor` literals (round 6c). -/
+def nDeviceGray : Bytes := litDeviceGray
+def nDeviceRGB : Bytes := litDeviceRGB
+def nDeviceCMYK : Bytes := litDeviceCMYK
+def nG : Bytes := litInlineGray
+def nRGB : Bytes := litInlineRGB
 
 def isName (n : Bytes) : Option Val → Bool
   | some (.name s) => s == n
